@@ -109,6 +109,16 @@ Theorem C10_source_config_readers : forall g q vt dd D so, rep_vtilde (nv g) q v
 Proof. intros g q vt dd D so Hvt Hnd HR Hso. split; [intros v; apply config_get_degree_at_refines; assumption|]. split; [apply config_get_q_underlying_degree_refines; assumption|].
   split; [apply config_get_degree_sum_refines; assumption|]. rewrite nonneg_off_vtilde. apply config_is_non_negative_refines; assumption. Qed.
 Print Assumptions C10_source_config_readers.
+(* get_config_degrees_as_dict / get_q_vertex_name / get_v_tilde_names, translated from the CURRENT source: the dictionary has exactly one entry D(v) for every vertex v other
+   than q and none for q or for a non-vertex, and the call is never refused - for every iteration order of the set; the other two return q and the set V - {q} *)
+Theorem C10_source_config_as_dict : forall g q vt dd D so, rep_vtilde (nv g) q vt -> NoDup vt -> rep_div (nv g) dd D -> (forall l, Permutation.Permutation (so l) l) ->
+  (exists r, CFConfigMoves_get_config_degrees_as_dict vt q dd so = PyOk r /\ forall u, d_find u r = if inb g u && negb (Nat.eqb u q) then Some (nthZ D u) else None) /\
+  CFConfigMoves_get_q_vertex_name q = q /\ CFConfigMoves_get_v_tilde_names vt = vt.
+Proof. intros g q vt dd D so Hvt Hnd HR Hso. split; [apply config_as_dict_refines; assumption|apply config_name_readers_refine]. Qed.
+Print Assumptions C10_source_config_as_dict.
+Example C10_source_config_as_dict_nonvacuous :
+  CFConfigMoves_get_config_degrees_as_dict [0;2]%nat 1%nat [(0%nat, 5); (1%nat, -7); (2%nat, 2^70)] (fun l => rev l) = PyOk [(2%nat, 2^70); (0%nat, 5)].
+Proof. vm_compute. reflexivity. Qed.
 
 (* the constructor CFConfig(divisor, q), translated from the CURRENT source: refused exactly when q is not a vertex; otherwise the configuration remembers q and the
    duplicate-free set V - {q}, i.e. the hypotheses of C10_source_config_readers hold for every constructed configuration *)
